@@ -606,7 +606,7 @@ pub fn gen_pipe_in(rng: &mut Rng) -> Program {
     for i in 0..prefilled {
         t0.push({ let __k = OpKind::Push { s, item: 10 + i as u32 }; g.op(__k) });
     }
-    t0.push({ let __k = OpKind::PipeIn { o, s, body: item_body(&mut g) }; g.op(__k) });
+    t0.push({ let __k = OpKind::PipeIn { o, s, body: item_body(&mut g), from: None }; g.op(__k) });
     let mut threads = vec![t0];
     // concurrent use of the same object
     if g.rng.permille(700) {
@@ -623,10 +623,20 @@ pub fn gen_pipe_in(rng: &mut Rng) -> Program {
                     let h = g.handle();
                     let gate = g.gate();
                     t.push({ let __k = OpKind::FutureDesync { o, body: vec![Step::AwaitGate(gate)], h }; g.op(__k) });
-                    if g.rng.permille(500) {
-                        t.push({ let __k = OpKind::Detach { h }; g.op(__k) });
-                    } else {
-                        t.push({ let __k = OpKind::Await { h }; g.op(__k) });
+                    match g.rng.weighted(&[4, 3, 3]) {
+                        0 => t.push({ let __k = OpKind::Detach { h }; g.op(__k) }),
+                        1 => t.push({ let __k = OpKind::Await { h }; g.op(__k) }),
+                        _ => {
+                            // polled once by this thread (which then runs the queue, pipe items included, inside that poll)
+                            // and then abandoned or dropped: the pool has to take over whatever was suspended inside the poll
+                            if g.rng.permille(400) {
+                                t.push({ let __k = OpKind::Yield(g.rng.range(1, 3) as u8); g.op(__k) });
+                            }
+                            t.push({ let __k = OpKind::PollOnce { h }; g.op(__k) });
+                            if g.rng.permille(500) {
+                                t.push({ let __k = OpKind::DropHandle { h }; g.op(__k) });
+                            }
+                        }
                     }
                 }
                 _ => t.push({ let __k = OpKind::Yield(2); g.op(__k) }),
@@ -680,7 +690,7 @@ pub fn gen_pipe_out(rng: &mut Rng) -> Program {
     for i in 0..prefilled {
         t0.push({ let __k = OpKind::Push { s, item: 10 + i as u32 }; g.op(__k) });
     }
-    t0.push({ let __k = OpKind::Pipe { o, s, depth, out, body: item_body(&mut g) }; g.op(__k) });
+    t0.push({ let __k = OpKind::Pipe { o, s, depth, out, body: item_body(&mut g), from: None }; g.op(__k) });
     // the consumer: blocking reads and single polls at generated points
     let n_reads = g.rng.range(0, n_items as u64 + 2);
     for _ in 0..n_reads {
@@ -747,7 +757,7 @@ pub fn gen_pipe_drop(rng: &mut Rng) -> Program {
     for i in 0..prefilled {
         t0.push({ let __k = OpKind::Push { s, item: 10 + i as u32 }; g.op(__k) });
     }
-    t0.push({ let __k = OpKind::Pipe { o, s, depth, out, body: item_body(&mut g) }; g.op(__k) });
+    t0.push({ let __k = OpKind::Pipe { o, s, depth, out, body: item_body(&mut g), from: None }; g.op(__k) });
     let n_reads = g.rng.range(0, 3);
     for _ in 0..n_reads {
         match g.rng.weighted(&[3, 3, 2]) {
@@ -785,6 +795,88 @@ pub fn gen_pipe_drop(rng: &mut Rng) -> Program {
     finish(prog, &g)
 }
 
+/// Two pipes chained: the output stream of the first is the input of the second (a `pipe`, or a `pipe_in`).  Shutting the
+/// end of the chain down (dropping its output, or, for `pipe_in`, releasing its target and letting one more item through)
+/// drops the first pipe's output from wherever the second pipe happens to be released, and the first pipe then owes its own
+/// shutdown: input stream, closure and strong reference released, with the real input silent.
+pub fn gen_pipe_chain(rng: &mut Rng) -> Program {
+    let pool_max = rng.range(1, 3) as usize;
+    let mut g = Gen::new(rng, 2);
+    let oa = 0;
+    let ob = if g.rng.permille(750) { 1 } else { 0 };
+    let (s, s2) = (0, 1);
+    let (out_a, out_b) = (0, 1);
+    let n_items = g.rng.range(0, 6) as usize;
+    let (depth_a, depth_b) = (g.rng.range(1, 4) as usize, g.rng.range(1, 4) as usize);
+    let second_is_pipe = g.rng.permille(700);
+    let mut t0 = vec![];
+    let prefilled = g.rng.range(0, n_items as u64) as usize;
+    for i in 0..prefilled {
+        t0.push({ let __k = OpKind::Push { s, item: 10 + i as u32 }; g.op(__k) });
+    }
+    t0.push({ let __k = OpKind::Pipe { o: oa, s, depth: depth_a, out: out_a, body: item_body(&mut g), from: None }; g.op(__k) });
+    if g.rng.permille(300) {
+        t0.push({ let __k = OpKind::Yield(g.rng.range(1, 3) as u8); g.op(__k) });
+    }
+    if second_is_pipe {
+        t0.push({ let __k = OpKind::Pipe { o: ob, s: s2, depth: depth_b, out: out_b, body: item_body(&mut g), from: Some(out_a) }; g.op(__k) });
+    } else {
+        t0.push({ let __k = OpKind::PipeIn { o: ob, s: s2, body: item_body(&mut g), from: Some(out_a) }; g.op(__k) });
+    }
+    let mut reads = 0;
+    for _ in 0..g.rng.range(0, 3) {
+        match g.rng.weighted(&[3, 3, 2]) {
+            0 if second_is_pipe => t0.push({ let __k = OpKind::PollNext { out: out_b }; g.op(__k) }),
+            1 => t0.push({ let __k = OpKind::Yield(g.rng.range(1, 3) as u8); g.op(__k) }),
+            _ => {
+                // (a blocking read only where an item is certain to arrive: no gates in the way, item already pushed)
+                if second_is_pipe && reads < prefilled && g.n_gates == 0 {
+                    reads += 1;
+                    t0.push({ let __k = OpKind::Next { out: out_b }; g.op(__k) })
+                }
+            }
+        }
+    }
+    // all remaining pushes happen before the shutdown, on the same thread, so the real input is silent afterwards
+    let keep_one = !second_is_pipe && prefilled < n_items;
+    let upto = if keep_one { n_items - 1 } else { n_items };
+    for i in prefilled..upto {
+        t0.push({ let __k = OpKind::Push { s, item: 10 + i as u32 }; g.op(__k) });
+        if g.rng.permille(300) {
+            t0.push({ let __k = OpKind::Yield(g.rng.range(1, 3) as u8); g.op(__k) });
+        }
+    }
+    // sometimes the pipes' own strong references are the only owners left
+    let sole_b = ob != oa && g.rng.permille(500);
+    let sole_a = g.rng.permille(300);
+    if second_is_pipe {
+        if sole_b {
+            t0.push({ let __k = OpKind::DropObj { o: ob }; g.op(__k) });
+        }
+        if sole_a && (ob != oa || !sole_b) {
+            t0.push({ let __k = OpKind::DropObj { o: oa }; g.op(__k) });
+        }
+        t0.push({ let __k = OpKind::DropOut { out: out_b }; g.op(__k) });
+    } else if ob != oa {
+        // pipe_in stops at the first stream event after its target has gone
+        t0.push({ let __k = OpKind::DropObj { o: ob }; g.op(__k) });
+        if g.rng.permille(300) {
+            t0.push({ let __k = OpKind::Yield(g.rng.range(1, 3) as u8); g.op(__k) });
+        }
+        if keep_one {
+            t0.push({ let __k = OpKind::Push { s, item: 10 + (n_items - 1) as u32 }; g.op(__k) });
+        }
+    }
+    let envg = if g.n_gates > 0 { g.env_gates(3) } else { vec![] };
+    let mut prog = base_program(pool_max, 2);
+    prog.n_streams = 2;
+    prog.n_outs = 2;
+    prog.prespawn = g.rng.permille(300);
+    prog.faults = Faults { spurious_cv_permille: 0, spurious_park_permille: 0, self_wake_permille: 0, dup_wake_permille: 0, keep_waker_permille: if g.rng.permille(300) { 1000 } else { 0 } };
+    prog.phases = vec![Phase { ctl: vec![], threads: vec![t0], env_gates: envg, env_streams: vec![] }];
+    finish(prog, &g)
+}
+
 // ---- position sweeps --------------------------------------------------------------------------
 
 /// C16: the drop of the output is injected at every scheduling point of whoever polls the input.
@@ -806,7 +898,7 @@ pub fn gen_pipe_drop_sweep(rng: &mut Rng) -> Program {
         let gate = g.gate();
         body.push(Step::AwaitGate(gate));
     }
-    t0.push({ let __k = OpKind::Pipe { o, s, depth, out, body }; g.op(__k) });
+    t0.push({ let __k = OpKind::Pipe { o, s, depth, out, body, from: None }; g.op(__k) });
     let injector = vec![{ let __k = OpKind::SweepWait; g.op(__k) }, { let __k = OpKind::DropOut { out }; g.op(__k) }, { let __k = OpKind::SweepDone; g.op(__k) }];
     let envg = if g.n_gates > 0 && g.rng.permille(500) { vec![{ let __k = OpKind::Yield(2); g.op(__k) }, { let __k = OpKind::OpenGate { g: 0 }; g.op(__k) }] } else { vec![] };
     let mut prog = base_program(pool_max, 1);
@@ -844,7 +936,7 @@ pub fn gen_pipe_in_wake_drop_sweep(rng: &mut Rng) -> Program {
     if g.rng.permille(300) {
         body.push(Step::Yield(1));
     }
-    t0.push({ let __k = OpKind::PipeIn { o, s, body }; g.op(__k) });
+    t0.push({ let __k = OpKind::PipeIn { o, s, body, from: None }; g.op(__k) });
     t0.push({ let __k = OpKind::OpenGate { g: ready }; g.op(__k) });
     let injector = vec![{ let __k = OpKind::SweepWait; g.op(__k) }, { let __k = OpKind::DropObj { o }; g.op(__k) }, { let __k = OpKind::SweepDone; g.op(__k) }];
     let mut env = vec![{ let __k = OpKind::WaitGate { g: ready }; g.op(__k) }, { let __k = OpKind::Mark; g.op(__k) }];
@@ -937,7 +1029,7 @@ pub fn gen_pipe_in_drop_sweep(rng: &mut Rng) -> Program {
     if g.rng.permille(300) {
         body.push(Step::Yield(1));
     }
-    t0.push({ let __k = OpKind::PipeIn { o, s, body }; g.op(__k) });
+    t0.push({ let __k = OpKind::PipeIn { o, s, body, from: None }; g.op(__k) });
     if !burst_first {
         for i in 0..n_items {
             t0.push({ let __k = OpKind::Push { s, item: 10 + i as u32 }; g.op(__k) });
